@@ -96,6 +96,7 @@ func init() {
 		wrap := len(a) > 3 && a[3] == "wrap"
 		burstMode = len(a) > 3 && a[3] == "burst"
 		noFilter := len(a) > 3 && a[3] == "nofilter" // WithHasSubcontract(false): every part is a message of its own
+		subpkgMode := len(a) > 3 && a[3] == "subpkg" // C05 live: mostly sub-packaged messages, parts also coalesced in one write
 		l := startLive(liveOpts{traceTo: a[2], noFilter: noFilter})
 		r := newRand(606)
 		var wg sync.WaitGroup
@@ -132,13 +133,39 @@ func init() {
 						}
 						continue
 					}
+					if subpkgMode && rr.Intn(4) != 0 {
+						// two transfers of different ids, their parts interleaved and written two frames at a time: both may complete in one read
+						ta, tb := 1+rr.Intn(4), 1+rr.Intn(3)
+						var frames [][]byte
+						mk := func(id, total, no int) []byte {
+							return buildFrame(hdrSpec{id: id, serial: t.nextSerial(), ver: t.ver, verbyte: 1, frag: 1, total: total, no: no, phone: t.phone, body: randBytes(rr, 36+rr.Intn(40))})
+						}
+						pa, pb := rr.Perm(ta-1), rr.Perm(tb-1)
+						frames = append(frames, mk(0x0801, ta, 1), mk(0x0704, tb, 1))
+						for k := 0; k < len(pa) || k < len(pb); k++ {
+							if k < len(pa) {
+								frames = append(frames, mk(0x0801, ta, pa[k]+2))
+							}
+							if k < len(pb) {
+								frames = append(frames, mk(0x0704, tb, pb[k]+2))
+							}
+						}
+						for k := 0; k < len(frames); k += 2 {
+							w := frames[k]
+							if k+1 < len(frames) {
+								w = append(append([]byte{}, w...), frames[k+1]...)
+							}
+							t.send(w)
+						}
+						continue
+					}
 					if !burstMode && rr.Intn(map[bool]int{true: 3, false: 10}[noFilter]) == 0 { // a sub-packaged message: counts once, when complete
-						total := 2 + rr.Intn(3)
+						total := 1 + rr.Intn(4) // 1: a message sent as package 1 of 1
 						id := []int{0x0801, 0x0200, 0x0704}[rr.Intn(3)]
 						order := rr.Perm(total - 1)
 						send := func(no int) {
 							body := randBytes(rr, 20+rr.Intn(30)) // two parts always hold the 36-byte fixed part of 0x0801
-							if noFilter {
+							if noFilter || total == 1 {
 								body = randBytes(rr, 36+rr.Intn(30)) // each part is answered from its own bytes
 							}
 							t.send(buildFrame(hdrSpec{id: id, serial: t.nextSerial(), ver: t.ver, verbyte: 1, frag: 1, total: total, no: no, phone: t.phone, body: body}))
